@@ -85,6 +85,14 @@ fn run12(case: &Value) -> Obs {
         Some(a) => a.clone(),
         None => return o,
     };
+    // domain of C12 at tree level: no stored pattern is the empty string (DESIGN 6-O3); such cases are only
+    // compared with the model
+    let unique = case.get("unique").and_then(|b| b.as_bool()).unwrap_or(false);
+    if let Some((_, pats)) = parse_ops(case, unique) {
+        if pats.iter().any(|p| render(p).is_empty()) {
+            return o.tag("empty-pattern");
+        }
+    }
     let is_cache = |op: &Value| op.as_array().and_then(|a| a.first()).and_then(|k| k.as_str()) == Some("c");
     let ncache = ops.iter().filter(|op| is_cache(op)).count();
     o.tags.push(format!("ncache:{}", ncache.min(6)));
